@@ -99,7 +99,8 @@ structure InstDef where
   sui : List Pre
   children : List (String × List Child)     -- keyed by output message
   nextParentless : Option Int
-  futOff : Option Int := none               -- largest future offset among the prerequisite atoms (incl. suicide) of the instance:
+  futOff : Option Int := none               -- largest future offset among the prerequisite atoms (incl. suicide) of the instance
+                                            -- (`atomFutOff`; the JSON layer computes it from the atoms, see `wfFut`):
                                             -- what constructing a TaskProxy here contributes to `tdef.max_future_prereq_offset`
   ghosts : List (String × Int) := []        -- graph children / parents (at or before the final point) for which the data store
                                             -- builds ghost task proxies when this instance is added to the pool (n = 1 window)
@@ -263,6 +264,17 @@ def insertBucket (x : Proxy) : List Proxy → List Proxy
 
 /-- `tdef.max_future_prereq_offset` of task `n` (`none` = `None`) -/
 def State.offOf (s : State) (n : String) : Option Int := (s.tdefOff.find? (·.1 == n)).map (·.2)
+
+/-- `Dependency.get_prerequisite`: the future offset the construction of a proxy at point `p` records - the largest
+distance from `p` to a prerequisite atom (suicide prerequisites included) at a LATER point, however the trigger was
+written (`foo[+P2]`, `foo[^+P2]`, ...); `none` if there is no such atom -/
+def atomFutOff (p : Int) (pres : List Pre) : Option Int :=
+  (pres.flatMap fun pr => pr.atoms.map fun a => a.1.pt).foldl (fun acc q =>
+    if q > p then
+      (match acc with
+       | none => some (q - p)
+       | some o => if q - p > o then some (q - p) else acc)
+    else acc) none
 
 /-- what constructing a `TaskProxy` of `n` at `p` contributes (`none`: not an instance / no future prerequisite) -/
 def instOff (g : Graph) (n : String) (p : Int) : Option Int :=
